@@ -34,3 +34,17 @@ silent("C65", "rename-partial-local",
 silent("C65", "submit-branches-swapped",
        [(API, "        if self._cfg.submit_unpack:\n            output = self._submit_fn(exec_be)(fn, *args, **kwargs)\n        else:\n            output = self._submit_fn(exec_be)(fn, args, kwargs)",
               "        if not self._cfg.submit_unpack:\n            output = self._submit_fn(exec_be)(fn, args, kwargs)\n        else:\n            output = self._submit_fn(exec_be)(fn, *args, **kwargs)")])
+
+fire("C65", "map-arity-test-ignores-defaulted-params",
+     (API, "        if self._cfg.map_unpack and len(inspect.signature(fn).parameters) > 1:",
+           "        if self._cfg.map_unpack and sum(p.default is p.empty for p in inspect.signature(fn).parameters.values()) > 1:"),
+     "R-C65-forward", "PyNativeExec.map")
+fire("C65", "mppool-map-consumes-iterators",
+     (MP, "    def map(self, fn: Callable, *args: Sequence[Any], **kwargs):\n",
+          "    def map(self, fn: Callable, *args: Sequence[Any], **kwargs):\n        if args and min(len(list(arg)) for arg in args) == 0:\n            return []\n"),
+     "R-C65-consume", "MPPoolExec.map")
+fire("C65", "starmap-sorted-args",
+     (API, "        return list(exec_be.starmap(fn_p, args))", "        return list(exec_be.starmap(fn_p, sorted(args)))"),
+     "R-C65-consume", "PyNativeExec.starmap")
+silent("C65", "map-len-of-args-tuple",
+       [(API, "        fn_p = partial(fn, **kwargs)\n        if self._cfg.map_unpack", "        fn_p = partial(fn, **kwargs)\n        _n = len(args)\n        if self._cfg.map_unpack")])
